@@ -157,9 +157,71 @@ def Sites.bad (S : Sites) : List String :=
     ("one.unsafe_cfunction", S.unsafeCfun, -1), ("one.threaded_abstract", S.thrAbs, -1), ("unmarshal_byte", S.ubyte, 0),
     ("unmarshal_bytes", S.ubytes, -1), ("unmarshal_ensure", S.ensure, -1)].filter (fun p => !p.2.1.okFor p.2.2)).map (·.1)
 
+/-- what each recursive call site of the unmarshaller adds to the depth counter: `k` of the `flags + k` it passes as last
+    argument (REGENERATED from marsh.c, `Gen/UnmarshSites.incs`).  Only `unmarshal_one` and `unmarshal_one_def` test the
+    counter (`MARSH_STACKCHECK`); `unmarshal_one_env`, `unmarshal_one_fiber`, `unmarshal_one_abstract` and the
+    `janet_unmarshal_janet` hook pass it on. -/
+structure Incs where
+  envFiber : Nat      -- unmarshal_one_env, on-stack variant: `unmarshal_one(st, data, &fiberv, flags)`
+  envValue : Nat      -- unmarshal_one_env, off-stack values
+  defName : Nat       -- unmarshal_one_def: name
+  defSource : Nat
+  defConst : Nat      -- constants
+  defSym : Nat        -- symbol of a symbol-map entry
+  defSub : Nat        -- sub-funcdefs (`unmarshal_one_def`)
+  fbFrameFn : Nat     -- unmarshal_one_fiber: function of a frame
+  fbFrameEnv : Nat    -- environment of a frame (`unmarshal_one_env`)
+  fbSlot : Nat        -- stack slots of a frame
+  fbEnv : Nat         -- fiber environment table
+  fbChild : Nat       -- child fiber
+  fbLast : Nat        -- last_value
+  hookJanet : Nat     -- janet_unmarshal_janet: `ctx->flags + k`
+  absKey : Nat        -- unmarshal_one_abstract: type name
+  oneFiber : Nat      -- unmarshal_one: `unmarshal_one_fiber(.., flags + k)`
+  oneDef : Nat        -- LB_FUNCTION: `unmarshal_one_def`
+  oneEnv : Nat        -- LB_FUNCTION: `unmarshal_one_env`
+  oneAbstract : Nat   -- LB_ABSTRACT: `unmarshal_one_abstract`
+  arrElem : Nat
+  tupElem : Nat
+  structProto : Nat
+  structKey : Nat
+  structVal : Nat
+  tabProto : Nat
+  tabKey : Nat
+  tabVal : Nat
+  absCtx : Nat        -- unmarshal_one_abstract: `flags + k` stored in the JanetMarshalContext handed to the hook
+  deriving Repr, DecidableEq, Inhabited
+
+/-- every path from one `MARSH_STACKCHECK` (entry of `unmarshal_one` / `unmarshal_one_def`) to the next adds at least 1 -/
+def Incs.ok (I : Incs) : Bool :=
+  decide (1 ≤ I.arrElem) && decide (1 ≤ I.tupElem) && decide (1 ≤ I.structProto) && decide (1 ≤ I.structKey) &&
+  decide (1 ≤ I.structVal) && decide (1 ≤ I.tabProto) && decide (1 ≤ I.tabKey) && decide (1 ≤ I.tabVal) &&
+  decide (1 ≤ I.oneDef) && decide (1 ≤ I.oneEnv + I.envFiber) && decide (1 ≤ I.oneEnv + I.envValue) &&
+  decide (1 ≤ I.oneFiber + I.fbFrameFn) && decide (1 ≤ I.oneFiber + I.fbSlot) && decide (1 ≤ I.oneFiber + I.fbEnv) &&
+  decide (1 ≤ I.oneFiber + I.fbChild) && decide (1 ≤ I.oneFiber + I.fbLast) &&
+  decide (1 ≤ I.oneFiber + I.fbFrameEnv + I.envFiber) && decide (1 ≤ I.oneFiber + I.fbFrameEnv + I.envValue) &&
+  decide (1 ≤ I.oneAbstract + I.absKey) && decide (1 ≤ I.oneAbstract + I.absCtx + I.hookJanet) &&
+  decide (1 ≤ I.defName) && decide (1 ≤ I.defSource) && decide (1 ≤ I.defConst) && decide (1 ≤ I.defSym) && decide (1 ≤ I.defSub)
+
+/-- names of the call paths that fail `Incs.ok`, for reporting -/
+def Incs.bad (I : Incs) : List String :=
+  ([("one->one(array element)", I.arrElem), ("one->one(tuple element)", I.tupElem), ("one->one(struct proto)", I.structProto),
+    ("one->one(struct key)", I.structKey), ("one->one(struct value)", I.structVal), ("one->one(table proto)", I.tabProto),
+    ("one->one(table key)", I.tabKey), ("one->one(table value)", I.tabVal), ("one->def(function)", I.oneDef),
+    ("one->env->one(function env, on-stack fiber)", I.oneEnv + I.envFiber), ("one->env->one(function env, values)", I.oneEnv + I.envValue),
+    ("one->fiber->one(frame function)", I.oneFiber + I.fbFrameFn), ("one->fiber->one(frame slot)", I.oneFiber + I.fbSlot),
+    ("one->fiber->one(fiber env)", I.oneFiber + I.fbEnv), ("one->fiber->one(child)", I.oneFiber + I.fbChild),
+    ("one->fiber->one(last_value)", I.oneFiber + I.fbLast),
+    ("one->fiber->env->one(frame env, on-stack fiber)", I.oneFiber + I.fbFrameEnv + I.envFiber),
+    ("one->fiber->env->one(frame env, values)", I.oneFiber + I.fbFrameEnv + I.envValue),
+    ("one->abstract->one(type name)", I.oneAbstract + I.absKey), ("one->abstract->hook->one(janet_unmarshal_janet)", I.oneAbstract + I.absCtx + I.hookJanet),
+    ("def->one(name)", I.defName), ("def->one(source)", I.defSource), ("def->one(constant)", I.defConst),
+    ("def->one(symbolmap symbol)", I.defSym), ("def->def(sub-funcdef)", I.defSub)].filter (fun p => p.2 == 0)).map (·.1)
+
 /-- everything the model takes from the rest of the system -/
 structure Cfg where
   sites : Sites
+  inc : Incs
   verify : DefRec → Bool                 -- `janet_verify(def) == 0`
   pegVerify : List Nat → Nat → Bool      -- the verifier loop of `peg_unmarshal`
   pegSizeChecked : Bool                  -- peg_unmarshal bounds its counts by the remaining input before sizing the allocation
@@ -288,14 +350,14 @@ def envBody (P : Fns) (d : Nat) : M Unit :=
     modSt (fun s => { s with nenvs := s.nenvs + 1 }) >>= fun _ =>
     readnat C b >>= fun offset => readnat C b >>= fun length =>
     if 0 < offset then
-      P.one d >>= fun fv => expect (isTyp fv 2) .typ
+      P.one (d + C.inc.envFiber) >>= fun fv => expect (isTyp fv 2) .typ
     else if length = 0 then fail .envLen
-    else loopN length (P.one d >>= fun _ => pure ())
+    else loopN length (P.one (d + C.inc.envValue) >>= fun _ => pure ())
 
 /-- symbol map entry: three `readint`s and a symbol -/
 def symEntry (P : Fns) (d : Nat) : M (Nat × Nat × Nat) :=
   readint C b >>= fun birth => readint C b >>= fun death => readint C b >>= fun slot =>
-  P.one (d + 1) >>= fun v => expect (isTyp v 1) .symmap >>= fun _ => pure (toU32 birth, toU32 death, toU32 slot)
+  P.one (d + C.inc.defSym) >>= fun v => expect (isTyp v 1) .symmap >>= fun _ => pure (toU32 birth, toU32 death, toU32 slot)
 
 def optNat (c : Bool) (m : M Nat) : M Nat := if c then m else pure 0
 
@@ -318,13 +380,13 @@ def defBody (P : Fns) (d : Nat) : M Nat :=
     optNat (bit (toU32 flagsI) 4194304) (readnat C b) >>= fun nenvs =>      -- HASENVS 0x400000
     optNat (bit (toU32 flagsI) 2097152) (readnat C b) >>= fun ndefs =>      -- HASDEFS 0x200000
     optNat (bit (toU32 flagsI) 262144) (readnat C b) >>= fun nsym =>        -- HASSYMBOLMAP 0x40000
-    (if bit (toU32 flagsI) 524288 then P.one (d + 1) >>= fun v => expect (isTyp v 0) .typ else pure ()) >>= fun _ =>   -- HASNAME
-    (if bit (toU32 flagsI) 1048576 then P.one (d + 1) >>= fun v => expect (isTyp v 0) .typ else pure ()) >>= fun _ =>  -- HASSOURCE
-    loopN nconsts (P.one (d + 1) >>= fun _ => pure ()) >>= fun _ =>
+    (if bit (toU32 flagsI) 524288 then P.one (d + C.inc.defName) >>= fun v => expect (isTyp v 0) .typ else pure ()) >>= fun _ =>   -- HASNAME
+    (if bit (toU32 flagsI) 1048576 then P.one (d + C.inc.defSource) >>= fun v => expect (isTyp v 0) .typ else pure ()) >>= fun _ =>  -- HASSOURCE
+    loopN nconsts (P.one (d + C.inc.defConst) >>= fun _ => pure ()) >>= fun _ =>
     collectN nsym (symEntry C b P d) >>= fun symmap =>
     collectN bclen (u32 C b) >>= fun bytecode =>
     loopN nenvs (readint C b >>= fun inh => expect (decide (-1 ≤ inh)) .envIdx) >>= fun _ =>
-    loopN ndefs (P.def_ (d + 1) >>= fun _ => pure ()) >>= fun _ =>
+    loopN ndefs (P.def_ (d + C.inc.defSub) >>= fun _ => pure ()) >>= fun _ =>
     (if bit (toU32 flagsI) 8388608 then loopN bclen (readint C b >>= fun _ => readint C b >>= fun _ => pure ()) else pure ()) >>= fun _ =>   -- HASSOURCEMAP
     (if bit (toU32 flagsI) 33554432 then loopN ((slotcount + 31) / 32) (u32 C b >>= fun _ => pure ()) else pure ()) >>= fun _ =>             -- HASCLOBITSET
     expect (C.verify { flags := toU32 flagsI, slotcount := slotcount, arity := arity, minArity := minA, maxArity := maxA,
@@ -352,25 +414,25 @@ def frameLoop (P : Fns) (d : Nat) (frame : Nat) : Nat → Nat → Int → Option
   | k + 1, stack, stacktop, top =>
     if stack = 0 then pure top else
     readint C b >>= fun frameflags => readnat C b >>= fun prevframe => readnat C b >>= fun pcdiff =>
-    P.one (d + 1) >>= fun fv =>
+    P.one (d + C.inc.fbFrameFn) >>= fun fv =>
     getSt >>= fun s =>
     match fv with
     | .func fid =>
       match (s.funcs[fid]?.getD none) with
       | none => fail .frIncomplete
       | some di =>
-        (if toU32 frameflags / 2147483648 % 2 == 1 then P.env (d + 1) else pure ()) >>= fun _ =>
+        (if toU32 frameflags / 2147483648 % 2 == 1 then P.env (d + C.inc.fbFrameEnv) else pure ()) >>= fun _ =>
         expect (decide (((s.defs[di]?.getD default).slotcount : Int) = stacktop - stack)) .frSize >>= fun _ =>
         expect (decide (pcdiff < (s.defs[di]?.getD default).bytecode.length)) .frPc >>= fun _ =>
         expect (decide (stack = frame) || decide (((s.defs[di]?.getD default).bytecode.getD pcdiff 0) % 128 = C.jopCall)) .frCall >>= fun _ =>
         expect (decide (toI32 (prevframe + 4) ≤ stack)) .frAlign >>= fun _ =>
         expect (decide (prevframe ≠ 0) || (toU32 frameflags / 2 % 2 == 1)) .frEntrance >>= fun _ =>
-        loopN (stacktop - stack).toNat (P.one (d + 1) >>= fun _ => pure ()) >>= fun _ =>
+        loopN (stacktop - stack).toNat (P.one (d + C.inc.fbSlot) >>= fun _ => pure ()) >>= fun _ =>
         frameLoop P d frame k prevframe ((stack : Int) - 4)
           (if stack = frame then some { slotcount := (s.defs[di]?.getD default).slotcount, bytecode := (s.defs[di]?.getD default).bytecode, pc := pcdiff } else top)
     | _ => fail .typ
 
-/-- `unmarshal_one_fiber(st, data + 1, &fiber, flags + 1)`, `d = flags + 1` -/
+/-- `unmarshal_one_fiber(st, data + 1, &fiber, flags')`, `d = flags'` -/
 def fiberBody (P : Fns) (d : Nat) : M V :=
   getSt >>= fun s0 =>
   modSt (fun s => { s with fibers := s.fibers.push none, lookup := s.lookup.push (.fiber s.fibers.size) }) >>= fun _ =>
@@ -378,16 +440,16 @@ def fiberBody (P : Fns) (d : Nat) : M V :=
   readnat C b >>= fun maxs =>
   expect (decide (toI32 (frame + 4) ≤ sstart) && decide (sstart ≤ stop) && decide (stop ≤ maxs)) .fbSetup >>= fun _ =>
   frameLoop C b P d frame (b.size + 1) frame ((sstart : Int) - 4) none >>= fun top =>
-  (if bit (toU32 fflags) 1073741824 then P.one (d + 1) >>= fun v => expect (isTyp v 4) .typ else pure ()) >>= fun _ =>   -- HASENV 1<<30
+  (if bit (toU32 fflags) 1073741824 then P.one (d + C.inc.fbEnv) >>= fun v => expect (isTyp v 4) .typ else pure ()) >>= fun _ =>   -- HASENV 1<<30
   (if bit (toU32 fflags) 536870912 then                                                                             -- HASCHILD 1<<29
-    P.one (d + 1) >>= fun v =>
+    P.one (d + C.inc.fbChild) >>= fun v =>
     match v with
     | .fiber cid => getSt >>= fun s =>
       if cid = s0.fibers.size || childReaches s.fibers s0.fibers.size s.fibers.size (s.fibers[cid]?.getD none) then fail .fbCycle
       else modSt (fun s => { s with fibers := s.fibers.setIfInBounds s0.fibers.size (some cid) })
     | _ => fail .typ
    else pure ()) >>= fun _ =>
-  P.one (d + 1) >>= fun _ =>
+  P.one (d + C.inc.fbLast) >>= fun _ =>
   expect (decide (toU32 fflags / 65536 % 64 ≤ 15)) .fbStatus >>= fun _ =>
   expect (decide (frame ≠ 0) || decide (toU32 fflags / 65536 % 64 = 0)) .fbNoFrames >>= fun _ =>
   (if 0 < frame ∧ toU32 fflags / 65536 % 64 ≠ 0 ∧ toU32 fflags / 65536 % 64 ≠ 1 ∧
@@ -406,12 +468,12 @@ def functionBody (P : Fns) (d : Nat) : M V :=
   expect (decide (len ≤ 255)) .fnEnvs >>= fun _ =>
   getSt >>= fun s0 =>
   modSt (fun s => { s with funcs := s.funcs.push none, lookup := s.lookup.push (.func s.funcs.size) }) >>= fun _ =>
-  P.def_ (d + 1) >>= fun di =>
+  P.def_ (d + C.inc.oneDef) >>= fun di =>
   getSt >>= fun s =>
   expect (decide (0 < (s.defs[di]?.getD default).bytecode.length)) .fnIncomplete >>= fun _ =>
   expect (decide ((s.defs[di]?.getD default).envLen = len)) .fnEnvCount >>= fun _ =>
   modSt (fun s => { s with funcs := s.funcs.setIfInBounds s0.funcs.size (some di) }) >>= fun _ =>
-  loopN len (P.env (d + 1)) >>= fun _ =>
+  loopN len (P.env (d + C.inc.oneEnv)) >>= fun _ =>
   pure (.func s0.funcs.size)
 
 /-- `peg_unmarshal` (reads only; the verifier loop is `C.pegVerify`) -/
@@ -423,7 +485,7 @@ def pegBody (P : Fns) (d : Nat) : M Unit :=
    else pure ()) >>= fun _ =>
   pushLookup .abs >>= fun _ =>
   collectN blen (readint C b >>= fun w => pure (toU32 w)) >>= fun bc =>
-  loopN (toU32 ncI) (P.one (d + 2) >>= fun _ => pure ()) >>= fun _ =>
+  loopN (toU32 ncI) (P.one (d + C.inc.absCtx + C.inc.hookJanet) >>= fun _ => pure ()) >>= fun _ =>
   expect (C.pegVerify bc (toU32 ncI)) .pegBad
 
 /-- `janet_chanat_unmarshal` -/
@@ -432,11 +494,11 @@ def chanBody (P : Fns) (d : Nat) : M Unit :=
   (if thr ≠ 0 ∧ C.threads = false then fail .absThreaded else pushLookup .abs) >>= fun _ => ubyte C b >>= fun _ =>
   readint C b >>= fun _ => readint C b >>= fun count =>
   expect (decide (0 ≤ count)) .chanCount >>= fun _ =>
-  loopN count.toNat (P.one (d + 2) >>= fun _ => pure ())
+  loopN count.toNat (P.one (d + C.inc.absCtx + C.inc.hookJanet) >>= fun _ => pure ())
 
 /-- `unmarshal_one_abstract(st, data, out, flags)`, `d = flags` -/
 def abstractBody (P : Fns) (d : Nat) : M V :=
-  P.one (d + 1) >>= fun key =>
+  P.one (d + C.inc.absKey) >>= fun key =>
   match key with
   | .sym name =>
     match C.abstracts.lookup name with
@@ -467,20 +529,20 @@ def containerBody (P : Fns) (d : Nat) (lead : Nat) : M V :=
   readnat C b >>= fun len =>
   (if lead = lb_reference then pure () else chk b C.sites.oneDos len) >>= fun _ =>
   if lead = lb_array || lead = lb_array_weak then
-    pushLookup .arr >>= fun _ => loopN len (P.one (d + 1) >>= fun _ => pure ()) >>= fun _ => pure .arr
+    pushLookup .arr >>= fun _ => loopN len (P.one (d + C.inc.arrElem) >>= fun _ => pure ()) >>= fun _ => pure .arr
   else if lead = lb_tuple then
-    readint C b >>= fun _ => loopN len (P.one (d + 1) >>= fun _ => pure ()) >>= fun _ => pushLookup .tup >>= fun _ => pure .tup
+    readint C b >>= fun _ => loopN len (P.one (d + C.inc.tupElem) >>= fun _ => pure ()) >>= fun _ => pushLookup .tup >>= fun _ => pure .tup
   else if lead = lb_struct || lead = lb_struct_proto then
-    (if lead = lb_struct_proto then P.one (d + 1) >>= fun p => expect (isTyp p 5) .typ else pure ()) >>= fun _ =>
-    loopN len (P.one (d + 1) >>= fun _ => P.one (d + 1) >>= fun _ => pure ()) >>= fun _ =>
+    (if lead = lb_struct_proto then P.one (d + C.inc.structProto) >>= fun p => expect (isTyp p 5) .typ else pure ()) >>= fun _ =>
+    loopN len (P.one (d + C.inc.structKey) >>= fun _ => P.one (d + C.inc.structVal) >>= fun _ => pure ()) >>= fun _ =>
     pushLookup .struct >>= fun _ => pure .struct
   else if lead = lb_reference then
     getSt >>= fun s =>
     refGuard C.refChecked (decide (len < s.lookup.size)) .badRef 100 >>= fun _ => pure (s.lookup[len]?.getD .nil)
   else
     pushLookup .tab >>= fun _ =>
-    (if isTableProto lead then P.one (d + 1) >>= fun p => expect (isTyp p 4) .typ else pure ()) >>= fun _ =>
-    loopN len (P.one (d + 1) >>= fun _ => P.one (d + 1) >>= fun _ => pure ()) >>= fun _ => pure .tab
+    (if isTableProto lead then P.one (d + C.inc.tabProto) >>= fun p => expect (isTyp p 4) .typ else pure ()) >>= fun _ =>
+    loopN len (P.one (d + C.inc.tabKey) >>= fun _ => P.one (d + C.inc.tabVal) >>= fun _ => pure ()) >>= fun _ => pure .tab
 
 /-- string-likes (after `data++`) -/
 def bytesBody (lead : Nat) : M V :=
@@ -501,9 +563,9 @@ def oneBody (P : Fns) (d : Nat) : M V :=
   else if lead = lb_real then
     guarded b C.sites.oneReal 0 10 1 8 9 (fun _ => ()) >>= fun _ => pushLookup .real >>= fun _ => pure .real
   else if isBytesLead lead then adv 1 >>= fun _ => bytesBody C b lead
-  else if lead = lb_fiber then adv 1 >>= fun _ => fiberBody C b P (d + 1)
+  else if lead = lb_fiber then adv 1 >>= fun _ => fiberBody C b P (d + C.inc.oneFiber)
   else if lead = lb_function then adv 1 >>= fun _ => functionBody C b P d
-  else if lead = lb_abstract then adv 1 >>= fun _ => abstractBody C b P d
+  else if lead = lb_abstract then adv 1 >>= fun _ => abstractBody C b P (d + C.inc.oneAbstract)
   else if isContainerLead lead then adv 1 >>= fun _ => containerBody C b P d lead
   else if lead = lb_unsafe_pointer then chk b C.sites.unsafePtr 0 >>= fun _ => fail .unsafePtr
   else if lead = lb_pointer_buffer then
